@@ -40,42 +40,52 @@ def overlap(ctx):
         def get_modified_time(self):
             return self.t
 
+    def attempt(shape, w, scheduler, timeout):
+        bar = threading.Barrier(w, timeout=timeout)
+        infl, lock, mx = [0], threading.Lock(), [0]
+
+        def f(i, *a):
+            with lock:
+                infl[0] += 1
+                mx[0] = max(mx[0], infl[0])
+            try:
+                bar.wait()
+            finally:
+                with lock:
+                    infl[0] -= 1
+            return i
+        p = uberjob.Plan()
+        reg = None
+        if shape == "independent":
+            xs = [p.call(f, i) for i in range(w)]
+        elif shape == "fan-out":
+            root = p.call(lambda: 0)
+            xs = [p.call(f, i, root) for i in range(w)]
+        else:
+            reg = uberjob.Registry()
+            root = p.call(lambda: 0)
+            xs = [p.call(lambda r, i=i: i, root) for i in range(w)]
+            for x in xs:
+                reg.add(x, Mem(bar))
+        err = None
+        try:
+            uberjob.run(p, output=xs, registry=reg, max_workers=w, scheduler=scheduler, progress=None)
+        except BaseException as e:  # BrokenBarrierError -> the calls did not overlap
+            err = e
+        return err, mx[0]
+
     for shape in ("independent", "fan-out", "store-writes"):
         for w in (2, 3, 5):
             for scheduler in (None, "random"):
-                bar = threading.Barrier(w, timeout=4)
-                infl, lock, mx = [0], threading.Lock(), [0]
-
-                def f(i, *a):
-                    with lock:
-                        infl[0] += 1
-                        mx[0] = max(mx[0], infl[0])
-                    try:
-                        bar.wait()
-                    finally:
-                        with lock:
-                            infl[0] -= 1
-                    return i
-                p = uberjob.Plan()
-                reg = None
-                if shape == "independent":
-                    xs = [p.call(f, i) for i in range(w)]
-                elif shape == "fan-out":
-                    root = p.call(lambda: 0)
-                    xs = [p.call(f, i, root) for i in range(w)]
-                else:
-                    reg = uberjob.Registry()
-                    root = p.call(lambda: 0)
-                    xs = [p.call(lambda r, i=i: i, root) for i in range(w)]
-                    for x in xs:
-                        reg.add(x, Mem(bar))
                 ctx.case(("overlap", shape, w, scheduler))
                 ctx.count("overlap_shape", shape)
-                try:
-                    uberjob.run(p, output=xs, registry=reg, max_workers=w, scheduler=scheduler, progress=None)
-                except BaseException as e:  # BrokenBarrierError -> the calls did not overlap
+                err, mx = attempt(shape, w, scheduler, 3)
+                if err is not None:
+                    # rule out a slow machine before reporting: once more with a long rendezvous timeout
+                    err, mx = attempt(shape, w, scheduler, 30)
+                if err is not None:
                     ctx.fail("overlap:" + shape, "max_workers=%d ready %s did not run in parallel (%s)" % (
-                        w, "store writes" if shape == "store-writes" else "calls", type(getattr(e, "__cause__", None) or e).__name__),
+                        w, "store writes" if shape == "store-writes" else "calls", type(getattr(err, "__cause__", None) or err).__name__),
                         {"shape": shape, "width": w, "scheduler": scheduler})
-                if mx[0] > w:
-                    ctx.fail("plan:too-many-in-flight", "%d in flight with max_workers=%d" % (mx[0], w), {"width": w})
+                if mx > w:
+                    ctx.fail("plan:too-many-in-flight", "%d in flight with max_workers=%d" % (mx, w), {"width": w})
